@@ -1,5 +1,6 @@
 import TuModel.Model.Wire
 import TuModel.Model.MultiGen
+import TuModel.Model.Lines
 namespace Tu.Drive
 open Tu Tu.Wire
 
@@ -34,6 +35,13 @@ def multiGenD (op : String) (args : List Nat) : Option String :=
         match replayTags (srcsOfLens lens) tags with
         | some rest => if rest.all List.isEmpty then "accept" else "refuse ended-early"
         | none => "refuse yield-from-exhausted-source"
+      | none => reject
+  -- lossylines: the line reader of the sources (`LossyUtf8Lines`) on one file given as its bytes:
+  -- `count_lines`, then the byte content of every yielded line
+  | "lossylines" => some <| match runP pNats args with
+      | some b =>
+        if b.any (· ≥ 256) then reject else
+        ok (countLines b :: eList eNats (lossyLines b))
       | none => reject
   | _ => none
 
